@@ -310,7 +310,11 @@ class C06(Check):
         out.append(result(HELD, cls=f"{driver}/size{size}", counters=counters, nontrivial=nontrivial,
                           key=f"{driver}/{case['variant']}/{size}/{mw}/{case['seed']}",
                           sample=dict(case=case, worlds=counters["worlds_run"], messages=counters["messages_exchanged"],
-                                      distinct_schedules=counters.get("distinct_schedules", 0))))
+                                      distinct_schedules=counters.get("distinct_schedules", 0),
+                                      last_world=dict(policy=policy, send_mode=mode, steps=world.step,
+                                                      first_events=[{k: v for k, v in ev.items() if k != "nbytes"} for ev in world.events[:10]],
+                                                      first_decisions=[list(d) for d in world.decisions[:12]],
+                                                      task_events=[list(ev[:4]) for ev in world.user_events if ev[0] != "written"][:8]))))
         return out
 
 
